@@ -9,9 +9,20 @@ def run(run, harness, replay=None):
         "level of nesting in thorough) x boundary values and emits for each value the bits Layout.Encode demands plus every spelling of the adversarial "
         "family with its denotation (canonical / same value / no value); the harness replays them into literal_arg, set_literal, as_bits, parse_output, "
         "to_string+parse_arg and the identity program. Alarm: canonical refused or wrong bits or wrong round trip; non-canonical accepted with other bits; "
-        "a spelling that denotes nothing accepted; any panic. Non-trivial = (value, spelling) checks performed."
+        "a spelling that denotes nothing accepted; any panic. Design + spec->impl for the session protocol: EvalSession.tla (literals are checked against "
+        "the next parameter, failed calls leave the session unchanged, run succeeds iff every parameter has an input of its width) is checked by TLC and every "
+        "call history of the bound is replayed into a real Evaluator. Non-trivial = (value, spelling) checks performed."
     )
     cpath = os.path.join(run.work, "cases.ndjson")
+    if replay and "session" in replay:
+        spath = os.path.join(run.work, "sessions.ndjson")
+        write_ndjson(spath, [replay["session"]])
+        rpath2 = os.path.join(run.work, "sessions.res")
+        run_harness(harness, ["session-replay", spath, rpath2])
+        for x in read_ndjson(rpath2):
+            if not x.get("summary"):
+                run.fail("session:" + x["what"], "evaluation session: %s observed %s" % (x["what"], json.dumps(x["observed"])[:200]), {"session": x["case"], "observed": x["observed"]})
+        return
     if replay:
         write_ndjson(cpath, [replay["case"]])
     else:
@@ -43,3 +54,26 @@ def run(run, harness, replay=None):
         full = [c for c in cases if c["ty"] == w["ty"] and c["v"] == w["v"]]
         run.fail("literal:" + sig, "%d cases: %s; e.g. type %s value %s spelling %s: %s" % (len(items), sig, json.dumps(w["ty"]), json.dumps(w["v"]), json.dumps(w["spelling"])[:300], w["observed"][:200]),
                  {"case": full[0] if full else case, "spelling": w["spelling"], "observed": w["observed"], "count": len(items)})
+    if not replay:
+        # evaluation sessions (EvalSession.tla): TLC checks the session protocol (literals are type-checked against the next parameter, a
+        # failed call leaves the session unchanged, run succeeds iff every parameter has an input of its width) and emits every call history
+        # of the bound with the outcome of every call; each history is replayed into a real Evaluator - no call may panic
+        spath = os.path.join(run.work, "sessions.ndjson")
+        r, n = tlc_cases("EvalSession", "EvalSession_%s.cfg" % tier, spath, workers=6, timeout=3000, xmx="8g", max_cases=None if tier == "quick" else 600000)
+        run.add_tlc("EvalSession", r)
+        rpath2 = os.path.join(run.work, "sessions.res")
+        run_harness(harness, ["session-replay", spath, rpath2], timeout=7200)
+        sg = {}
+        for x in read_ndjson(rpath2):
+            if x.get("summary"):
+                run.cov["evaluations"] += x["n"]
+                run.cov["traces_validated_against_impl"] += x["n"]
+                run.cov["evaluation_sessions"] = x["n"]
+            else:
+                calls = [h["c"] + ":" + h["k"] for h in x["case"]["hist"]]
+                sg.setdefault(x["what"], []).append((len(calls), x))
+        for what, items in sorted(sg.items()):
+            items.sort(key=lambda t: t[0])
+            w = items[0][1]
+            run.fail("session:" + what, "%d evaluation sessions: %s; shortest: parameters %s, calls %s, observed %s" % (len(items), what, json.dumps(w["case"]["params"]), json.dumps(w["case"]["hist"])[:400], json.dumps(w["observed"])[:200]),
+                     {"session": w["case"], "observed": w["observed"], "count": len(items)})
